@@ -73,6 +73,12 @@ impl InodeStore {
         self.by_id.clear();
     }
 
+    /// Verification hook: number of live inode objects.
+    #[cfg(fuse_backend_rs_verif)]
+    pub fn verif_len(&self) -> usize {
+        self.data.len()
+    }
+
     pub fn get(&self, inode: &Inode) -> Option<&Arc<InodeData>> {
         self.data.get(inode)
     }
